@@ -40,6 +40,7 @@ type dtr struct {
 	resultTypes []types.Type
 	calls map[string]bool // functions called by the one being translated
 	curFunc string
+	curKey  string // enum mode: <method>_<receiver type>
 	mode    string // "drv" (package vedirect) or "api" (package vedirectapi)
 }
 
@@ -98,6 +99,20 @@ func (t *dtr) coqType(ty types.Type) string {
 	if t.mode == "api" {
 		return t.apiType(ty)
 	}
+	if t.mode == "reg" {
+		return t.regType(ty)
+	}
+	if t.mode == "ble" {
+		return t.bleType(ty)
+	}
+	if t.mode == "enum" {
+		switch typeName(ty) {
+		case "veconst.Enum":
+			return "(Z * string)"
+		case "veconst.FieldList":
+			return "Z"
+		}
+	}
 	return ""
 }
 
@@ -121,6 +136,10 @@ func (t *dtr) zero(ty types.Type) string {
 		return "(@nil (Z * bool))"
 	case "(option apiobj)":
 		return "(@None apiobj)"
+	case "(list reg)":
+		return "(@nil reg)"
+	case "(option devcfg)":
+		return "(@None devcfg)"
 	}
 	return ""
 }
@@ -207,6 +226,15 @@ func (t *dtr) errVarTable() map[string]string {
 	if t.mode == "api" {
 		return apiErrVars
 	}
+	if t.mode == "reg" {
+		return map[string]string{}
+	}
+	if t.mode == "enum" {
+		return map[string]string{"ErrInvalidEnumIdx": "EInvalidEnumIdx"}
+	}
+	if t.mode == "ble" {
+		return map[string]string{}
+	}
 	return errVars
 }
 
@@ -224,7 +252,7 @@ func (t *dtr) effectFree(e ast.Expr) bool {
 			case "len", "fmt.Sprintf", "byte":
 				return true
 			}
-			if t.mode == "api" && t.regAccessor(x) != "" {
+			if (t.mode == "api" || t.mode == "reg") && t.regAccessor(x) != "" {
 				return true
 			}
 			ok = false
@@ -391,6 +419,12 @@ func (t *dtr) ex(e ast.Expr) (pre []bnd, term string) {
 				return nil, s
 			}
 		}
+		if t.mode == "reg" && t.isRecv(x.X) {
+			if g, ok := regFieldGet[x.Sel.Name]; ok {
+				v := t.tmp()
+				return []bnd{{v, g, false}}, v
+			}
+		}
 		t.bad(e, "selector %s", types.ExprString(e))
 	case *ast.IndexExpr:
 		if !isByteSlice(t.info.Types[x.X].Type) {
@@ -419,6 +453,18 @@ func (t *dtr) ex(e ast.Expr) (pre []bnd, term string) {
 		v := t.tmp()
 		return append(p, bnd{v, fmt.Sprintf("g_slice %s %s %s", a, lo, hi), false}), v
 	case *ast.CompositeLit:
+		if t.mode == "api" && typeName(tv.Type) == "vedirectapi.RegisterApi" {
+			for _, el := range x.Elts {
+				kv, ok := el.(*ast.KeyValueExpr)
+				if !ok || types.ExprString(kv.Key) != "ioPort" {
+					t.bad(e, "RegisterApi literal")
+				}
+				if p, _ := t.ex(kv.Value); len(p) != 0 {
+					t.bad(e, "RegisterApi literal with an effect")
+				}
+			}
+			return nil, "(mkApi 0 empty_reglist)"
+		}
 		if !isByteSlice(tv.Type) {
 			t.bad(e, "composite literal of type %s", tv.Type)
 		}
@@ -433,6 +479,9 @@ func (t *dtr) ex(e ast.Expr) (pre []bnd, term string) {
 		}
 		return pre, "[" + strings.Join(parts, "; ") + "]"
 	case *ast.UnaryExpr:
+		if x.Op == token.AND && t.mode == "api" && t.isApiObj(x.X) {
+			return nil, "(Some " + t.varName(x.X.(*ast.Ident)) + ")"
+		}
 		p, a := t.ex(x.X)
 		switch x.Op {
 		case token.SUB:
@@ -451,6 +500,10 @@ func (t *dtr) ex(e ast.Expr) (pre []bnd, term string) {
 		return t.binary(x, tv)
 	case *ast.CallExpr:
 		return t.call(x, tv)
+	case *ast.FuncLit:
+		if t.mode == "reg" {
+			return nil, t.funcLit(x)
+		}
 	}
 	t.bad(e, "expression %T", e)
 	return nil, ""
@@ -536,6 +589,15 @@ func (t *dtr) binary(x *ast.BinaryExpr, tv types.TypeAndValue) ([]bnd, string) {
 			}
 			return p, r
 		}
+		if isString(lt) && isString(rt) && (x.Op == token.EQL || x.Op == token.NEQ) {
+			p1, a := t.ex(x.X)
+			p2, b := t.ex(x.Y)
+			r := fmt.Sprintf("(g_bytes_eqb %s %s)", a, b)
+			if x.Op == token.NEQ {
+				r = "(negb " + r + ")"
+			}
+			return append(p1, p2...), r
+		}
 		if _, _, ok := intKind(lt); !ok {
 			t.bad(x, "comparison of %s", lt)
 		}
@@ -547,6 +609,14 @@ func (t *dtr) binary(x *ast.BinaryExpr, tv types.TypeAndValue) ([]bnd, string) {
 		op := map[token.Token]string{token.EQL: "(%s =? %s)", token.NEQ: "(negb (%s =? %s))", token.LSS: "(%s <? %s)",
 			token.LEQ: "(%s <=? %s)", token.GTR: "(%s >? %s)", token.GEQ: "(%s >=? %s)"}[x.Op]
 		return append(p1, p2...), fmt.Sprintf(op, a, b)
+	}
+	if t.mode == "ble" && x.Op == token.REM {
+		if yv := t.info.Types[x.Y]; yv.Value == nil {
+			p1, a := t.ex(x.X)
+			p2, b := t.ex(x.Y)
+			v := t.tmp()
+			return append(append(p1, p2...), bnd{v, fmt.Sprintf("g_rem %s %s", a, b), false}), v
+		}
 	}
 	if t.mode == "api" && isFloat(tv.Type) {
 		op := map[token.Token]string{token.ADD: "Qplus", token.SUB: "Qminus", token.MUL: "Qmult", token.QUO: "Qdiv"}[x.Op]
@@ -777,6 +847,20 @@ func (t *dtr) call(x *ast.CallExpr, tv types.TypeAndValue) ([]bnd, string) {
 		p, a := t.ex(x.Args[0])
 		return p, "(g_len " + a + ")"
 	case "append":
+		if t.mode == "reg" && t.coqType(tv.Type) == "(list reg)" {
+			p, a := t.ex(x.Args[0])
+			if x.Ellipsis != token.NoPos {
+				q, b := t.ex(x.Args[1])
+				return append(p, q...), fmt.Sprintf("(%s ++ %s)", a, b)
+			}
+			var parts []string
+			for _, el := range x.Args[1:] {
+				q, s := t.ex(el)
+				p = append(p, q...)
+				parts = append(parts, s)
+			}
+			return p, fmt.Sprintf("(%s ++ [%s])", a, strings.Join(parts, "; "))
+		}
 		if !isByteSlice(tv.Type) {
 			t.bad(x, "append on %s", tv.Type)
 		}
@@ -793,6 +877,18 @@ func (t *dtr) call(x *ast.CallExpr, tv types.TypeAndValue) ([]bnd, string) {
 		}
 		return p, fmt.Sprintf("(%s ++ [%s])", a, strings.Join(parts, "; "))
 	case "make":
+		if t.mode == "reg" && t.coqType(tv.Type) == "(list reg)" && len(x.Args) >= 2 {
+			if lv := t.info.Types[x.Args[1]].Value; lv == nil || lv.ExactString() != "0" {
+				t.bad(x, "make of a register slice with a non-zero length")
+			}
+			for _, a := range x.Args[2:] {
+				if p, _ := t.ex(a); len(p) != 0 {
+					// the capacity may call rl.Len(): no effect on the state
+					_ = p
+				}
+			}
+			return nil, "(@nil reg)"
+		}
 		if !isByteSlice(tv.Type) || len(x.Args) < 2 {
 			t.bad(x, "make of %s", tv.Type)
 		}
@@ -851,6 +947,34 @@ func (t *dtr) call(x *ast.CallExpr, tv types.TypeAndValue) ([]bnd, string) {
 			return p, s
 		}
 	}
+	if t.mode == "reg" {
+		if p, s, ok := t.regCall(x, tv); ok {
+			return p, s
+		}
+	}
+	if t.mode == "ble" {
+		if p, s, ok := t.bleCall(x, tv); ok {
+			return p, s
+		}
+	}
+	if t.mode == "enum" {
+		if sel, ok := x.Fun.(*ast.SelectorExpr); ok && sel.Sel.Name == "New" && t.isRecv(sel.X) && len(x.Args) == 1 {
+			rt := typeName(t.info.Types[sel.X].Type)
+			rt = rt[strings.LastIndex(rt, ".")+1:]
+			bits, signed, isInt := intKind(t.info.Types[x.Args[0]].Type)
+			if !isInt || signed {
+				t.bad(x, "argument of New")
+			}
+			p, a := t.ex(x.Args[0])
+			if strings.HasPrefix(t.curKey, "NewFieldList_") {
+				return p, fmt.Sprintf("(g_fl_new \"%s\"%%string %d %s)", rt, bits, a)
+			}
+			if bits != 8 {
+				t.bad(x, "enum constructor on %d bits", bits)
+			}
+			return p, fmt.Sprintf("(g_enum_new \"%s\"%%string %s)", rt, a)
+		}
+	}
 	// methods of the receiver's fields, methods of the receiver, package functions
 	if sel, ok := x.Fun.(*ast.SelectorExpr); ok {
 		if in, ok := sel.X.(*ast.SelectorExpr); ok && t.isRecv(in.X) {
@@ -893,6 +1017,12 @@ func (t *dtr) call(x *ast.CallExpr, tv types.TypeAndValue) ([]bnd, string) {
 		}
 		if t.isRecv(sel.X) {
 			if fd, ok := t.funcs[sel.Sel.Name]; ok && fd.Recv != nil {
+				if t.mode == "reg" {
+					return t.localCall(x, "go_"+sel.Sel.Name, fd)
+				}
+				if t.mode == "ble" {
+					return t.localCall(x, "go_"+sel.Sel.Name+" c", fd)
+				}
 				return t.localCall(x, "go_"+sel.Sel.Name+" c", fd)
 			}
 		}
@@ -915,6 +1045,22 @@ func (t *dtr) localCall(x *ast.CallExpr, head string, fd *ast.FuncDecl) ([]bnd, 
 	t.calls[fd.Name.Name] = true
 	var pre []bnd
 	var argv []string
+	if t.mode == "reg" || t.mode == "ble" {
+		if x.Ellipsis != token.NoPos {
+			t.bad(x, "variadic call")
+		}
+		for _, a := range x.Args {
+			q, s := t.ex(a)
+			pre = append(pre, q...)
+			argv = append(argv, s)
+		}
+		v := t.tmp()
+		m := head
+		if len(argv) > 0 {
+			m += " " + strings.Join(argv, " ")
+		}
+		return append(pre, bnd{v, m, false}), v
+	}
 	i := 0
 	for _, p := range fd.Type.Params.List {
 		n := len(p.Names)
@@ -1014,6 +1160,9 @@ func (t *dtr) assigned(l []ast.Stmt, limit token.Pos) []types.Object {
 	seen := map[types.Object]bool{}
 	var out []types.Object
 	add := func(e ast.Expr) {
+		if sel, isSel := e.(*ast.SelectorExpr); isSel && t.mode == "api" && t.isApiObj(sel.X) {
+			e = sel.X
+		}
 		id, ok := e.(*ast.Ident)
 		if !ok || id.Name == "_" {
 			return
@@ -1110,9 +1259,25 @@ func (t *dtr) stmts(l []ast.Stmt, c *dctx) string {
 		if len(x.Results) == 0 {
 			return c.retT(t.resultTuple())
 		}
+		if len(x.Results) == 1 && len(t.resultTypes) > 1 {
+			if _, isCall := x.Results[0].(*ast.CallExpr); isCall {
+				p, v := t.ex(x.Results[0])
+				return wrapBinds(p, c.retT(v))
+			}
+		}
 		var pre []bnd
 		var vals []string
 		for i, r := range x.Results {
+			if t.mode == "ble" && i < len(t.resultTypes) && typeName(t.resultTypes[i]) == "ble.DeviceConfig" {
+				if isNilIdent(r) {
+					vals = append(vals, "(@None devcfg)")
+				} else {
+					p, v := t.ex(r)
+					pre = append(pre, p...)
+					vals = append(vals, "(Some "+v+")")
+				}
+				continue
+			}
 			if isNilIdent(r) && i < len(t.resultTypes) && len(x.Results) == len(t.resultTypes) {
 				z := t.zero(t.resultTypes[i])
 				if z == "" {
@@ -1173,11 +1338,13 @@ func (t *dtr) stmts(l []ast.Stmt, c *dctx) string {
 		}
 		return wrapBinds(pre, next())
 	case *ast.ExprStmt:
-		pre, _ := t.ex(x.X)
+		pre, term := t.ex(x.X)
 		if len(pre) == 0 {
 			t.bad(s, "expression statement without an effect")
 		}
-		pre[len(pre)-1].pat = "_"
+		if !pre[len(pre)-1].pure && pre[len(pre)-1].pat == term {
+			pre[len(pre)-1].pat = "_" // the result is discarded (otherwise the call re-binds a variable it writes)
+		}
 		return wrapBinds(pre, next())
 	case *ast.IncDecStmt:
 		id, ok := x.X.(*ast.Ident)
@@ -1232,6 +1399,22 @@ func (t *dtr) assign(x *ast.AssignStmt) []bnd {
 		p, b := t.ex(x.Rhs[0])
 		return append(p, bnd{n, t.arith(x, op, w, n, b, x.Rhs[0]), true})
 	}
+	// field writes on the local API object
+	if len(x.Lhs) == 1 && len(x.Rhs) == 1 && t.mode == "api" {
+		if sel, ok := x.Lhs[0].(*ast.SelectorExpr); ok && t.isApiObj(sel.X) {
+			n := t.varName(sel.X.(*ast.Ident))
+			p, v := t.ex(x.Rhs[0])
+			switch sel.Sel.Name {
+			case "Vd":
+				return p
+			case "Product":
+				return append(p, bnd{n, fmt.Sprintf("mkApi %s (ao_registers %s)", v, n), true})
+			case "Registers":
+				return append(p, bnd{n, fmt.Sprintf("mkApi (ao_product %s) %s", n, v), true})
+			}
+			t.bad(x, "assignment to field %s", sel.Sel.Name)
+		}
+	}
 	// field writes
 	if len(x.Lhs) == 1 && len(x.Rhs) == 1 {
 		if sel, ok := x.Lhs[0].(*ast.SelectorExpr); ok && t.isRecv(sel.X) {
@@ -1240,6 +1423,10 @@ func (t *dtr) assign(x *ast.AssignStmt) []bnd {
 					t.bad(x, "assignment to lastSent")
 				}
 				return []bnd{{"_", "p_set_last_sent", false}}
+			}
+			if set, ok := regFieldSet[sel.Sel.Name]; ok && t.mode == "reg" {
+				p, v := t.ex(x.Rhs[0])
+				return append(p, bnd{"_", set + " " + v, false})
 			}
 			if set, ok := fieldSet[sel.Sel.Name]; ok {
 				p, v := t.ex(x.Rhs[0])
@@ -1470,6 +1657,9 @@ func (t *dtr) loop(at ast.Node, comb, lead, params string, body []ast.Stmt, rest
 	names := t.objNames(vars)
 	vt := t.tupleType(t.objTypes(vars), at)
 	rt := t.tupleType(t.resultTypes, at)
+	if t.mode == "ble" && len(t.resultTypes) == 1 && typeName(t.resultTypes[0]) == "ble.DeviceConfig" {
+		rt = "(option devcfg)"
+	}
 	inner := &dctx{
 		retT: func(tp string) string { return "ret (LRet " + tp + ")" },
 		fall: func() string { return "ret (LCont " + tuple(t.objNames(vars)) + ")" },
@@ -1571,6 +1761,34 @@ func (t *dtr) rangeStmt(x *ast.RangeStmt, rest []ast.Stmt, c *dctx) string {
 		}
 		return wrapBinds(pre, t.loop(x, "range_regs", l, vn+" ", x.Body.List, rest, c))
 	}
+	if (t.mode == "reg" || t.mode == "ble") && x.Tok == token.DEFINE {
+		et := ""
+		switch t.coqType(t.info.Types[x.X].Type) {
+		case "(list reg)":
+			et = "reg"
+		case "(list (list byte))":
+			et = "(list byte)"
+		case "(list devcfg)":
+			et = "devcfg"
+		}
+		if et != "" {
+			pre, l := t.ex(x.X)
+			if id, ok := x.Key.(*ast.Ident); !ok || id.Name != "_" {
+				t.bad(x, "range with an index variable")
+			}
+			id, ok := x.Value.(*ast.Ident)
+			if !ok || id.Name == "_" {
+				t.bad(x, "range form")
+			}
+			vn := t.declare(t.info.Defs[id])
+			for _, o := range t.assignedAll(x.Body.List) {
+				if n, ok := t.names[o]; ok && n == vn {
+					t.bad(x, "range variable assigned in the body")
+				}
+			}
+			return wrapBinds(pre, t.loop(x, "range_list "+et, l, vn+" ", x.Body.List, rest, c))
+		}
+	}
 	if x.Tok != token.DEFINE || !isByteSlice(t.info.Types[x.X].Type) {
 		t.bad(x, "range form")
 	}
@@ -1608,7 +1826,11 @@ func (t *dtr) function(fd *ast.FuncDecl) string {
 			t.bad(fd, "receiver form")
 		}
 		t.recv = t.info.Defs[fd.Recv.List[0].Names[0]]
-		params = append(params, "(c : cfg)")
+		if t.mode == "ble" {
+			params = append(params, "(c : blecfg)")
+		} else if t.mode != "reg" && t.mode != "enum" {
+			params = append(params, "(c : cfg)")
+		}
 	}
 	for _, p := range fd.Type.Params.List {
 		_, variadic := p.Type.(*ast.Ellipsis)
@@ -1618,6 +1840,14 @@ func (t *dtr) function(fd *ast.FuncDecl) string {
 		}
 		for _, n := range p.Names {
 			obj := t.info.Defs[n]
+			if t.mode == "reg" || t.mode == "ble" {
+				ct := t.coqType(obj.Type())
+				if ct == "" {
+					t.bad(p, "parameter type %s", obj.Type())
+				}
+				params = append(params, fmt.Sprintf("(%s : %s)", t.declare(obj), ct))
+				continue
+			}
 			if variadic || isString(pt) {
 				t.ignored[obj] = true // log text
 				continue
@@ -1625,6 +1855,11 @@ func (t *dtr) function(fd *ast.FuncDecl) string {
 			ct := t.coqType(pt)
 			if ct == "" {
 				t.bad(p, "parameter type %s", pt)
+			}
+			if ct == "cfg" {
+				t.names[obj] = "c"
+				params = append(params, "(c : cfg)")
+				continue
 			}
 			params = append(params, fmt.Sprintf("(%s : %s)", t.declare(obj), ct))
 		}
@@ -1649,6 +1884,9 @@ func (t *dtr) function(fd *ast.FuncDecl) string {
 		}
 	}
 	rtype := t.tupleType(t.resultTypes, fd)
+	if t.mode == "ble" && len(t.resultTypes) == 1 && typeName(t.resultTypes[0]) == "ble.DeviceConfig" {
+		rtype = "(option devcfg)" // an interface result that may be nil
+	}
 	body := fd.Body.List
 	// leading defers
 	type dfr struct{ cond, body string }
@@ -1730,7 +1968,11 @@ func (t *dtr) function(fd *ast.FuncDecl) string {
 		}
 		term = fmt.Sprintf("bind (%s) (fun %s =>\n  %s)", term, r, out)
 	}
-	return fmt.Sprintf("Definition go_%s %s : D %s :=\n  %s.\n", fd.Name.Name, strings.Join(params, " "), rtype, term)
+	defName := fd.Name.Name
+	if t.mode == "enum" {
+		defName = t.curKey
+	}
+	return fmt.Sprintf("Definition go_%s %s : D %s :=\n  %s.\n", defName, strings.Join(params, " "), rtype, term)
 }
 
 func translateDrv(repo, outPath string) {
@@ -1742,9 +1984,30 @@ func translateDrv(repo, outPath string) {
 
 func translateApi(repo, outPath string) {
 	translatePkg(repo, outPath, "api", "vedirectapi",
-		[]string{"ReadNumberRegister", "ReadTextRegister", "ReadEnumRegister", "ReadFieldListRegister", "StreamRegisterList"},
+		[]string{"ReadNumberRegister", "ReadTextRegister", "ReadEnumRegister", "ReadFieldListRegister", "StreamRegisterList", "NewRegisterApi"},
 		"From Coq Require Import QArith.\nFrom GV Require Import Vedirect.DrvSem Gen.DrvImpl Api.ApiSem.\nImport ListNotations.\nLocal Open Scope Z_scope.\n\n",
 		"GoLite-D -> Gallina translation of the register readers and the streaming loop (tie T-gen).")
+}
+
+func translateReg(repo, outPath string) {
+	translatePkg(repo, outPath, "reg", "veregister",
+		[]string{"Len", "AppendNumberRegisterStruct", "AppendTextRegisterStruct", "AppendEnumRegisterStruct",
+			"AppendFieldListRegisterStruct", "FilterRegister", "FilterByName", "GetRegisters"},
+		"From GV Require Import Vedirect.DrvSem Tables.RegSem.\nImport ListNotations.\nLocal Open Scope Z_scope.\n\n",
+		"GoLite-D -> Gallina translation of the register list operations (tie T-gen).")
+}
+
+func translateBleHandler(repo, outPath string) {
+	translatePkg(repo, outPath, "ble", "ble",
+		[]string{"PKCS7Padding", "bluezAddrBytes", "getDeviceConfig", "handleNewManufacturerData"},
+		"From GV Require Import Vedirect.DrvSem Ble.BleSem.\nImport ListNotations.\nLocal Open Scope Z_scope.\n\n",
+		"GoLite-D -> Gallina translation of the advertisement handler (tie T-gen).")
+}
+
+func translateEnum(repo, outPath string) {
+	translatePkg(repo, outPath, "enum", "veconst", nil,
+		"From GV Require Import Vedirect.DrvSem Tables.EnumSem.\nImport ListNotations.\nLocal Open Scope Z_scope.\n\n",
+		"GoLite-D -> Gallina translation of every NewEnum and NewFieldList of package veconst (tie T-gen).")
 }
 
 func translatePkg(repo, outPath, mode, pkgName string, entries []string, header, title string) {
@@ -1781,9 +2044,23 @@ func translatePkg(repo, outPath, mode, pkgName string, entries []string, header,
 	for i, f := range files {
 		for _, d := range f.Decls {
 			if fd, ok := d.(*ast.FuncDecl); ok && fd.Body != nil {
+				if mode == "enum" {
+					if fd.Recv == nil || len(fd.Recv.List) != 1 {
+						continue
+					}
+					rt := strings.TrimPrefix(types.ExprString(fd.Recv.List[0].Type), "*")
+					if !strings.HasSuffix(rt, "FactoryType") || (fd.Name.Name != "NewEnum" && fd.Name.Name != "NewFieldList") {
+						continue
+					}
+					key := fd.Name.Name + "_" + rt
+					t.funcs[key] = fd
+					fileOf[key] = filepath.Base(names[i])
+					entries = append(entries, key)
+					continue
+				}
 				if fd.Recv != nil && len(fd.Recv.List) == 1 {
 					rt := strings.TrimPrefix(types.ExprString(fd.Recv.List[0].Type), "*")
-					if rt != "Vedirect" && rt != "RegisterApi" {
+					if rt != "Vedirect" && rt != "RegisterApi" && rt != "RegisterList" && rt != "BleStruct" {
 						continue // methods of other types are not translated
 					}
 				}
@@ -1820,6 +2097,7 @@ func translatePkg(repo, outPath, mode, pkgName string, entries []string, header,
 		}
 		state[name] = 1
 		t.calls = map[string]bool{}
+		t.curKey = name
 		s := t.function(fd)
 		var callees []string
 		for c := range t.calls {
@@ -1841,6 +2119,18 @@ func translatePkg(repo, outPath, mode, pkgName string, entries []string, header,
 	sb.WriteString(header)
 	for _, n := range order {
 		fmt.Fprintf(&sb, "(* %s: %s *)\n%s\n", fileOf[n], n, text[n])
+	}
+	if mode == "enum" {
+		var en, fl []string
+		for _, n := range order {
+			if strings.HasPrefix(n, "NewEnum_") {
+				en = append(en, fmt.Sprintf("(\"%s\"%%string, go_%s)", strings.TrimPrefix(n, "NewEnum_"), n))
+			} else {
+				fl = append(fl, fmt.Sprintf("(\"%s\"%%string, go_%s)", strings.TrimPrefix(n, "NewFieldList_"), n))
+			}
+		}
+		fmt.Fprintf(&sb, "Definition all_new_enum : list (string * (Z -> D ((Z * string) * gerr))) :=\n  [%s].\n\n", strings.Join(en, ";\n   "))
+		fmt.Fprintf(&sb, "Definition all_new_fieldlist : list (string * (Z -> D (Z * gerr))) :=\n  [%s].\n\n", strings.Join(fl, ";\n   "))
 	}
 	fmt.Fprintf(&sb, "(* functions: %s *)\n", strings.Join(order, " "))
 	writeIfChanged(outPath, sb.String())
